@@ -80,6 +80,19 @@ pub fn send_body_flow_cfg(cfg: &ReqCfg) -> Flow<(), SendBody> {
     }
 }
 
+/// Any request configuration, driven to the SendBody state by a caller that looks at the effective
+/// headers (`headers_map()`, which runs the request analysis) before the first head write.
+pub fn send_body_flow_cfg_query_first(cfg: &ReqCfg) -> Flow<(), SendBody> {
+    let f = cfg.build_prepare().expect("prepare");
+    let mut f = f.proceed();
+    f.headers_map().expect("headers_map");
+    crate::driver::write_whole_head(&mut f).expect("head");
+    match AnyFlow::SendRequest(f).proceed() {
+        Ok(Some(AnyFlow::SendBody(f))) => f,
+        _ => panic!("harness: expected SendBody"),
+    }
+}
+
 /// Any request configuration on the single-call API, head already written.
 pub fn send_body_call_cfg(cfg: &ReqCfg) -> Call<WithBody, ()> {
     let mut c = Call::with_body(cfg.build_request()).expect("call");
